@@ -914,6 +914,12 @@ class RecordLayer(object):
 
             try:
                 if isinstance(header, RecordHeader2):
+                    # SSLv2 framing cannot carry AEAD protected data
+                    if self._readState and self._readState.encContext and \
+                            self._readState.encContext.isAEAD:
+                        raise TLSUnexpectedMessage(
+                            "SSLv2 record received on AEAD protected "
+                            "connection")
                     data = self._decryptSSL2(data, header.padding)
                     if self.handshake_finished:
                         header.type = ContentType.application_data
